@@ -2,6 +2,8 @@ import MdsVerif.Proofs.Stack
 import MdsVerif.Proofs.Mlink
 import MdsVerif.Proofs.MlinkRefine
 import MdsVerif.Proofs.Ring
+import MdsVerif.Proofs.RingCycle
+import MdsVerif.Proofs.RingRefine
 import MdsVerif.Gen.MlinkCursor
 /-!
 # C10 — stack, mlink.List/Queue and ring.Ring preserve their abstract sequence
@@ -419,73 +421,22 @@ All of them keep `Inv`, the number of cells and all values.
 theorem C10_ring_join_different (h : Heap) (hi : Inv h) (r s : Nat) (rs ss : List Nat)
     (c1 : Cyc h (r :: rs)) (c2 : Cyc h (s :: ss)) (hd : ∀ x ∈ r :: rs, x ∉ s :: ss) :
     ∃ h', join h (some r) (some s) = .ok (h', some (rs.headD r)) ∧
-      Cyc h' (r :: ((s :: ss) ++ rs)) ∧ Inv h' ∧ h'.size = h.size ∧ h'.vals = h.vals := by
-  obtain ⟨cs, c, hsn⟩ := exists_snoc (s :: ss) (by simp)
-  have hr := c1.bound r (by simp)
-  have hs := c2.bound s (by simp)
-  have hnr : h.nx r = rs.headD r := by have := c1.lk; simp only [Lk, List.headD_cons] at this; exact this.1
-  have h1 : r ≠ s := fun e => hd r (by simp) (by simp [e])
-  have h2 : h.nx r ≠ s := by
-    rw [hnr]; intro e
-    have : rs.headD r ∈ r :: rs := by cases rs <;> simp
-    exact hd _ this (by rw [e]; simp)
-  have hpv : h.pv s = c := by
-    have := cyc_pv_head h hi cs c (hsn ▸ c2)
-    rw [← hsn] at this; simpa using this
-  obtain ⟨h', e, sz, v, i', hnx⟩ := join_nx h hi r s hr hs h1 h2
-  refine ⟨h', by rw [e, hnr], ?_, i', sz, v⟩
-  rw [hsn]
-  apply exchange_merge h h' r c rs cs sz ?_ c1 (hsn ▸ c2) (by rw [← hsn]; exact hd)
-  intro k; rw [hnx k, hpv]
+      Cyc h' (r :: ((s :: ss) ++ rs)) ∧ Inv h' ∧ h'.size = h.size ∧ h'.vals = h.vals :=
+  join_different h hi r s rs ss c1 c2 hd
 
 theorem C10_ring_join_same (h : Heap) (hi : Inv h) (r c s : Nat) (m rest : List Nat)
     (c1 : Cyc h (r :: ((m ++ [c]) ++ (s :: rest)))) :
     ∃ h', join h (some r) (some s) = .ok (h', some ((m ++ [c]).headD 0)) ∧
-      Cyc h' (r :: s :: rest) ∧ Cyc h' (m ++ [c]) ∧ Inv h' ∧ h'.size = h.size ∧ h'.vals = h.vals := by
-  have hr := c1.bound r (by simp)
-  have hs := c1.bound s (by simp)
-  have hc := c1.bound c (by simp)
-  have l := c1.lk
-  simp only [Lk, List.headD_cons] at l
-  obtain ⟨la, l⟩ := l
-  rw [lk_append, lk_append] at l
-  simp only [Lk, List.headD_cons, List.headD_nil, and_true] at l
-  have hnr : h.nx r = (m ++ [c]).headD 0 := by rw [la]; exact headD_snoc_append m c (s :: rest) r 0
-  have hnc : h.nx c = s := l.1.2
-  have hpv : h.pv s = c := by rw [← hnc]; exact hi.pn c hc
-  have nd := c1.nodup
-  rw [List.nodup_cons, List.nodup_append] at nd
-  have h1 : r ≠ s := fun e => nd.1 (by simp [e])
-  have h2 : h.nx r ≠ s := by
-    rw [hnr]; intro e
-    have : (m ++ [c]).headD 0 ∈ m ++ [c] := by cases m <;> simp
-    exact nd.2.2.2 _ this s (by simp) e
-  obtain ⟨h', e, sz, v, i', hnx⟩ := join_nx h hi r s hr hs h1 h2
-  have := exchange_split h h' r c m (s :: rest) sz (by intro k; rw [hnx k, hpv]) c1
-  exact ⟨h', by rw [e, hnr], this.1, this.2, i', sz, v⟩
+      Cyc h' (r :: s :: rest) ∧ Cyc h' (m ++ [c]) ∧ Inv h' ∧ h'.size = h.size ∧ h'.vals = h.vals :=
+  join_same h hi r c s m rest c1
 
 theorem C10_ring_pop (h : Heap) (hi : Inv h) (a r : Nat) (rest : List Nat) (c1 : Cyc h (a :: r :: rest)) :
     Cyc (pop h (some r)) [r] ∧ Cyc (pop h (some r)) (a :: rest) ∧ Inv (pop h (some r)) ∧
-      (pop h (some r)).size = h.size ∧ (pop h (some r)).vals = h.vals := by
-  have ha := c1.bound a (by simp)
-  have hr := c1.bound r (by simp)
-  have l := c1.lk
-  simp only [Lk, List.headD_cons] at l
-  have hpv : h.pv r = a := by rw [← l.1]; exact hi.pn a ha
-  have nd := c1.nodup
-  rw [List.nodup_cons] at nd
-  have har : a ≠ r := fun e => nd.1 (by simp [e])
-  have hc : h.pv r ≠ r := by rw [hpv]; exact har
-  obtain ⟨i', sz, v, _, _⟩ := pop_inv h hi r hr
-  have := exchange_split h (pop h (some r)) a r [] rest sz
-    (by intro k; rw [pop_nx h hi r hr hc k, hpv]) (by simpa using c1)
-  exact ⟨by simpa using this.2, this.1, i', sz, v⟩
+      (pop h (some r)).size = h.size ∧ (pop h (some r)).vals = h.vals :=
+  pop_cyc h hi a r rest c1
 
-theorem C10_ring_pop_singleton (h : Heap) (hi : Inv h) (r : Nat) (c1 : Cyc h [r]) : pop h (some r) = h := by
-  have l := c1.lk
-  simp only [Lk, List.headD_cons, List.headD_nil, and_true] at l
-  have : h.pv r = r := by have := hi.pn r (c1.bound r (by simp)); rw [l] at this; exact this
-  simp [pop, this]
+theorem C10_ring_pop_singleton (h : Heap) (hi : Inv h) (r : Nat) (c1 : Cyc h [r]) : pop h (some r) = h :=
+  pop_singleton h hi r c1
 
 /-- **`Of vs` has cycle `vs`**: on any well-formed heap, `Of(v, vs...)` returns an element `r` whose cycle,
 read by `next` from `r`, carries exactly `v :: vs`, and the heap stays well formed.  (`Of()` and
@@ -524,6 +475,197 @@ theorem C10_ring_observations (h : Heap) (hi : Inv h) (r : Nat) (l : List Nat) (
 example : Cyc (of {} [1, 2, 3]).1 [0, 2, 1] ∧ [0, 2, 1].map (of {} [1, 2, 3]).1.val = [1, 2, 3] ∧
     Inv (of {} [1, 2, 3]).1 :=
   ⟨⟨by simp, ⟨rfl, rfl, rfl, trivial⟩, by decide, by decide⟩, by decide, (of_inv {} inv_empty _).1⟩
+
+/-!
+### Every cell of a reachable heap lies on a cycle (audit item 7)
+
+The per-operation theorems above assume `Cyc h (r :: l)`.  `C10_ring_cycle_exists` discharges that
+assumption from the history invariant alone: with `next`/`prev` mutually inverse inside a finite
+heap, the orbit of `r` under `next` returns to `r` within `size` steps (pigeonhole on the first
+`size + 1` iterates, injectivity of `next` pulls the coincidence back to `r`), and the iterates up
+to the first return are the duplicate-free list of the cycle.  The list is unique
+(`cyc_unique`), so "the ring of `r`" is well defined.  `C10_ring_history_cycles` restates the
+history theorem: after every history every allocated cell — in particular every non-nil register —
+lies on such a cycle, `Len`/`Each`/`At` read it, and `C10_ring_never_hangs`: no operation of any
+history exhausts the fuel of `scan`.  `C10_ring_pop_any` / `C10_ring_join_any` are the `Pop` and
+`Join` pictures without any hypothesis on cycles.
+-/
+
+/-- **cycle existence and uniqueness**: in a heap whose `next`/`prev` are mutually inverse and in
+range, every cell `r` starts exactly one list `r :: l` that is a cycle of `next`; it has at most
+`size` cells -/
+theorem C10_ring_cycle_exists (h : Heap) (hi : Inv h) (r : Nat) (hr : r < h.size) :
+    ∃ l, Cyc h (r :: l) ∧ (∀ l', Cyc h (r :: l') → l' = l) ∧ l.length + 1 ≤ h.size := by
+  obtain ⟨l, c⟩ := cyc_exists h hi r hr
+  exact ⟨l, c, fun l' c' => cyc_unique h r l' l c' c, by simpa using cyc_length_le h _ c⟩
+
+/-- two cells are on the same cycle or on disjoint cycles: a cycle is closed under `next`, and the
+cycles through `r` and `s` share an element only if `s` is on the cycle of `r` -/
+theorem C10_ring_cycles_partition (h : Heap) (r s : Nat) (l l' : List Nat)
+    (c1 : Cyc h (r :: l)) (c2 : Cyc h (s :: l')) :
+    (∀ x ∈ r :: l, h.nx x ∈ r :: l) ∧
+    (s ∈ r :: l → ∀ y, y ∈ s :: l' ↔ y ∈ r :: l) ∧
+    (s ∉ r :: l → ∀ x ∈ r :: l, x ∉ s :: l') := by
+  refine ⟨fun x hx => cyc_nx_mem h _ c1 x hx, fun hs y => ⟨?_, ?_⟩, fun hs => ?_⟩
+  · exact cyc_mem_of_common h _ _ c1 c2 s hs (by simp) y
+  · exact cyc_mem_of_common h _ _ c2 c1 s (by simp) hs y
+  · exact cyc_disjoint_of_not_mem h _ _ c1 c2 s (by simp) hs
+
+/-- the invariant of `C10_ring_invariant` as the predicate `Inv`/`RInv` of the per-operation theorems -/
+theorem ring_history_rinv (ops : List Op) : RInv (ops.foldl (fun s op => (step s op).1) ({} : St)) := by
+  suffices h : ∀ s : St, RInv s → RInv (ops.foldl (fun s op => (step s op).1) s) from h {} rinv_init
+  induction ops with
+  | nil => intro s hs; exact hs
+  | cons op ops ih => intro s hs; exact ih _ (step_rinv s op hs)
+
+/-- **after every history every cell lies on a cycle**: for every allocated cell `q` of the state
+reached by any history — in particular for every register that is not nil — there is exactly one
+duplicate-free list `q :: l` of cells that is a cycle of `next` (and, read backwards, of `prev`);
+`Len` is its length, `Each` visits its values in order (neither runs out of fuel), `At`/`Peek` index
+it in both directions.  All per-operation theorems (`C10_ring_join_*`, `C10_ring_pop`,
+`C10_ring_observations`) therefore apply to every ring reached by a history. -/
+theorem C10_ring_history_cycles (ops : List Op) :
+    let s := ops.foldl (fun s op => (step s op).1) ({} : St)
+    Inv s.h ∧
+    (∀ q, q < s.h.size → ∃ l, Cyc s.h (q :: l) ∧ ∀ l', Cyc s.h (q :: l') → l' = l) ∧
+    (∀ i q, s.reg i = some q → ∃ l, Cyc s.h (q :: l) ∧ (∀ l', Cyc s.h (q :: l') → l' = l) ∧
+      len s.h (s.reg i) = .ok (l.length + 1) ∧
+      each s.h (s.reg i) none = .ok ((q :: l).map s.h.val) ∧
+      (∀ k, each s.h (s.reg i) (some k) = .ok (((q :: l).take (k + 1)).map s.h.val)) ∧
+      (∀ n : Nat, at_ s.h (s.reg i) n = (if n ≤ l.length then (q :: l)[n]? else none) ∧
+        at_ s.h (s.reg i) (-(n : Int)) = (if n ≤ l.length then (q :: l.reverse)[n]? else none))) := by
+  intro s
+  have hs : RInv s := ring_history_rinv ops
+  refine ⟨hs.inv, fun q hq => ?_, fun i q hq => ?_⟩
+  · obtain ⟨l, c, u, _⟩ := C10_ring_cycle_exists s.h hs.inv q hq
+    exact ⟨l, c, u⟩
+  · obtain ⟨l, c, u, _⟩ := C10_ring_cycle_exists s.h hs.inv q (hs.regs i q hq)
+    obtain ⟨o1, o2, o3, o4, _, _⟩ := C10_ring_observations s.h hs.inv q l c
+    rw [hq]
+    exact ⟨l, c, u, o3, o1, o2, o4⟩
+
+/-- on a well-formed state no operation hangs (`scan` never runs out of fuel) -/
+theorem step_no_hang (s : St) (hs : RInv s) (op : Op) : (step s op).2 ≠ .hang := by
+  have hscan : ∀ r stop, scan s.h (s.reg r) stop ≠ .hang := by
+    intro r stop
+    cases hr : s.reg r with
+    | none => simp [scan]
+    | some q =>
+      obtain ⟨l, c⟩ := cyc_exists s.h hs.inv q (hs.regs r q hr)
+      rw [scan_cyc s.h q l c stop]; simp
+  cases op with
+  | of d vs => simp [step]
+  | new d n => simp [step]
+  | join d r t =>
+    simp only [step]
+    cases hr : s.reg r with
+    | none => cases ht : s.reg t <;> simp [join]
+    | some a => cases ht : s.reg t with
+      | none => simp [join]
+      | some b =>
+        obtain ⟨h', p, e, _⟩ := join_inv s.h hs.inv a b (hs.regs r a hr) (hs.regs t b ht)
+        rw [e]; simp
+  | pop d r => simp [step]
+  | next d r => simp only [step]; split <;> simp
+  | prev d r => simp only [step]; split <;> simp
+  | at_ d r n => simp [step]
+  | peek r n => simp [step]
+  | len r =>
+    simp only [step, len]
+    have := hscan r none
+    cases hsc : scan s.h (s.reg r) none with
+    | ok l => simp
+    | panicNil => simp
+    | hang => exact absurd hsc this
+  | each r k =>
+    simp only [step, each]
+    have := hscan r (some k)
+    cases hsc : scan s.h (s.reg r) (some k) with
+    | ok l => simp
+    | panicNil => simp
+    | hang => exact absurd hsc this
+  | isEmpty r => simp [step]
+
+/-- **scan terminates on every ring reached by a history**: no operation of any history returns
+`hang` (the model's "fuel of `scan` exhausted"; `size + 1` iterations always suffice) -/
+theorem C10_ring_never_hangs (ops : List Op) : Out.hang ∉ run {} ops := by
+  suffices h : ∀ s : St, RInv s → Out.hang ∉ run s ops from h {} rinv_init
+  induction ops with
+  | nil => intro s _; simp [run]
+  | cons op ops ih =>
+    intro s hs
+    simp only [run, List.mem_cons, not_or]
+    exact ⟨fun e => step_no_hang s hs op e.symm, ih _ (step_rinv s op hs)⟩
+
+/-- **`Pop` without a hypothesis on cycles**: for every cell `r` of a well-formed heap, with
+`r :: l` its cycle: a singleton is left alone; otherwise `r` becomes a ring of its own and the rest
+`l` (read from the old `r.Next()`) is a cycle -/
+theorem C10_ring_pop_any (h : Heap) (hi : Inv h) (r : Nat) (hr : r < h.size) :
+    ∃ l, Cyc h (r :: l) ∧ (l = [] → pop h (some r) = h) ∧
+      (l ≠ [] → Cyc (pop h (some r)) [r] ∧ Cyc (pop h (some r)) l) ∧
+      Inv (pop h (some r)) ∧ (pop h (some r)).size = h.size ∧ (pop h (some r)).vals = h.vals :=
+  pop_any h hi r hr
+
+/-- **`Join` without a hypothesis on cycles**: for any two cells `r`, `s` of a well-formed heap, with
+`r :: l` the cycle of `r`: (1) `s = r` or `s = r.Next()`: nothing happens, nil is returned;
+(2) `s` farther along the same ring, `l = m ++ s :: rest` with `m ≠ []`: the ring becomes
+`r :: s :: rest`, `m` is a ring of its own and its first element is returned; (3) `s` on another
+ring `s :: l'`: the rings are merged into `r :: s :: l' ++ l` and `r`'s old successor is returned.
+Exactly one of the three cases applies. -/
+theorem C10_ring_join_any (h : Heap) (hi : Inv h) (r s : Nat) (hr : r < h.size) (hs : s < h.size) :
+    ∃ l, Cyc h (r :: l) ∧
+      ((s = r ∨ l.head? = some s) → join h (some r) (some s) = .ok (h, none)) ∧
+      (∀ m rest, l = m ++ s :: rest → m ≠ [] →
+        ∃ h', join h (some r) (some s) = .ok (h', m.head?) ∧ Cyc h' (r :: s :: rest) ∧ Cyc h' m ∧
+          Inv h' ∧ h'.size = h.size ∧ h'.vals = h.vals) ∧
+      (s ∉ r :: l → ∃ l' h', Cyc h (s :: l') ∧ join h (some r) (some s) = .ok (h', some (l.headD r)) ∧
+          Cyc h' (r :: ((s :: l') ++ l)) ∧ Inv h' ∧ h'.size = h.size ∧ h'.vals = h.vals) ∧
+      (s = r ∨ s ∈ l ∨ s ∉ r :: l) :=
+  join_any h hi r s hr hs
+
+/-- non-vacuity of cycle existence on a reached heap: after `Of 1 2 3 4 5`, `Join` (splice out `[2 3]`)
+and `Pop`, every cell is on a cycle and `Len` reads it (register 2 holds the spliced-out ring) -/
+example :
+    let s := [Op.of 0 [1, 2, 3, 4, 5], .at_ 1 0 3, .join 2 0 1, .pop 4 1].foldl (fun s op => (step s op).1) ({} : St)
+    s.h.size = 5 ∧ len s.h (s.reg 2) = .ok 2 ∧ len s.h (s.reg 0) = .ok 2 ∧ len s.h (s.reg 4) = .ok 1 := by
+  decide
+
+/-!
+### The ring register machine refines the list-of-cycles reference
+
+`Spec.Cycles` is the documentation's picture: a list of cycles, `Join` and `Pop` as list surgery,
+elements numbered in creation order along their ring.  The model allocates heap cells in the order
+the loop of `New` links them (`Of 1 2 3` on the empty heap is the cycle of cells `[0, 2, 1]`, the
+reference calls the same elements `[0, 1, 2]`), so the simulation relation `Sim s c ρ` carries a
+renaming `ρ` of cells to element ids: `ρ` is a bijection of the allocated cells, values and
+registers agree through `ρ`, every reference cycle is the `ρ`-image of a model cycle and every cell
+is covered.  Outputs never contain a pointer, so the theorem itself is an equality of outputs.
+-/
+
+/-- **one step** from any related pair of states: same output, related states (the renaming is
+extended by `Of`/`New`, unchanged otherwise) -/
+theorem C10_ring_step (s : St) (c : MdsVerif.Spec.Cycles.C) (ρ : Nat → Nat) (hs : Sim s c ρ) (op : Op) :
+    ∃ ρ', Sim (step s op).1 (MdsVerif.Spec.Cycles.step c op).1 ρ' ∧
+      (step s op).2 = (MdsVerif.Spec.Cycles.step c op).2 :=
+  step_sim hs op
+
+/-- **C10 (ring)**: for every history of `Of, New, Join, Pop, Next, Prev, At, Peek, Len, Each, IsEmpty`
+over the element registers — any registers, any arguments, nil rings, `Join` of two elements of the
+same ring at any distance or of different rings, `Pop` of any element — the explicit-heap model of
+ring.go returns exactly what the list-of-cycles reference returns: the same values in the same
+order, the same lengths, the same nil-pointer panics, and never `hang`. -/
+theorem C10_ring_history (ops : List Op) : run {} ops = MdsVerif.Spec.Cycles.run {} ops :=
+  run_sim ops {} {} id sim_init
+
+/-- non-vacuity: the renaming is not the identity — `Of 1 2 3` is the cycle of cells `[0, 2, 1]` in the
+model and of element ids `[0, 1, 2]` in the reference — and the two agree on a history with both kinds
+of `Join` and a `Pop` -/
+example : (of {} [1, 2, 3]).1.next = [2, 0, 1] ∧
+    (MdsVerif.Spec.Cycles.step {} (.of 0 [1, 2, 3])).1.cycles = [[0, 1, 2]] ∧
+    MdsVerif.Spec.Cycles.run {} [.of 0 [1, 2, 3, 4, 5], .at_ 1 0 3, .join 2 0 1, .each 2 9, .each 0 9, .join 3 1 2,
+      .each 0 9, .pop 4 1, .each 0 9, .each 4 9, .len 0, .peek 0 (-1), .peek 0 4, .join 5 6 0]
+    = [.unit, .unit, .unit, .list [2, 3], .list [1, 4, 5], .unit, .list [1, 4, 2, 3, 5],
+       .unit, .list [1, 2, 3, 5], .list [4], .nat 4, .pair 5 true, .pair 0 false, .panicNil] := by decide
 
 end ring
 
